@@ -230,7 +230,7 @@ func convertCSVtoCSM(tbk io.TimeBucketKey, cvm *CSVMetadata, csvDataChunk [][]st
 	epochCol, nanosCol := readTimeColumns(csvDataChunk, cvm.ColumnIndex, cvm.Config)
 	if epochCol == nil {
 		log.Error("Error building time columns from csv data")
-		return
+		return nil, errors.New("failed to build the time columns from the csv data")
 	}
 
 	csmInit := io.NewColumnSeriesMap()
